@@ -337,12 +337,16 @@ def _apply_section(sec, head, it, data, s0, e0, what, edits, drop, tags_box, ret
                 c = it["closures"][ent[1]] if ok else None
                 simple = ok and not c["body_is_block"] and len(c["inputs"]) == 1 and " ret " in head \
                     and re.fullmatch(r"\s*ensures\s+(\w+)\s*==\s*\(.*\),?\s*", body, re.S) is not None
-                if not simple:
+                if not ok or getattr(_tls, "cur_optional", False):
                     raise GenError(f"{what}: closure starting with `{want.decode()}` found {len(hits)} times")
                 k = ent[1]
-                bvar = re.match(r"\s*ensures\s+(\w+)", body).group(1)
-                body = f"        ensures {bvar} == ({data[c['body'][0]:c['body'][1]].decode()})"
-                _tls.fallback_notes_soft = getattr(_tls, "fallback_notes_soft", []) + [f"closure contract of '{head}' derived from the edited closure body"]
+                if simple:
+                    bvar = re.match(r"\s*ensures\s+(\w+)", body).group(1)
+                    body = f"        ensures {bvar} == ({data[c['body'][0]:c['body'][1]].decode()})"
+                else:
+                    # any other closure: the template contract is attached to the closure at the recorded position and the function
+                    # counts as degraded (it is judged only if it still verifies)
+                    _tls.fallback_notes.append(f"closure section '{head}' attached by position ({k} of {ent[2]}): its text changed")
         else:
             k = int(w[1].rstrip(":"))
             if k >= len(it["closures"]):
